@@ -92,6 +92,10 @@ var orgs = []orgFns{
 	}},
 }
 
+// itemKey identifies the lines that may be merged with each other: same message and same severity
+// (different severities come from different call sites).
+func itemKey(item, lvl int) int { return item*8 + lvl }
+
 func msgText(gid, item int) string { return "g" + strconv.Itoa(gid) + " i" + strconv.Itoa(item) }
 
 func parseMsg(s string) (gid, item int, ok bool) {
@@ -285,7 +289,7 @@ func (c *child) Write(m log.Message, dups uint64) {
 		return
 	}
 	c.wtoks = append(c.wtoks, fmt.Sprintf("W:%s:%d", tok, dups))
-	o := fmt.Sprintf("%d:%d:%d", gid, item, dups)
+	o := fmt.Sprintf("%d:%d:%d", gid, itemKey(item, int(m.Severity())), dups)
 	if es, isT := log.VerifTraceEntries(m); isT {
 		var ids []string
 		for _, e := range es {
@@ -541,7 +545,7 @@ func childMain() {
 			n     int
 		}
 		var items []*agg
-		byItem := map[int]*agg{}
+		byItem := map[int]*agg{} // by itemKey
 		addSeg := func(a *agg, cfg int, before bool) {
 			a.n++
 			b := 0
@@ -562,10 +566,10 @@ func childMain() {
 			a.segs = append(a.segs, key+"*1")
 		}
 		for _, r := range calls {
-			a := byItem[r.item]
+			a := byItem[itemKey(r.item, r.lvl)]
 			if a == nil {
 				a = &agg{first: r}
-				byItem[r.item] = a
+				byItem[itemKey(r.item, r.lvl)] = a
 				items = append(items, a)
 			}
 			addSeg(a, r.cfg, r.before)
@@ -577,7 +581,7 @@ func childMain() {
 				var pend []callRec
 				switch op.Kind {
 				case "log", "logf":
-					a := byItem[op.Item]
+					a := byItem[itemKey(op.Item, op.Lvl)]
 					left := op.Reps
 					if a != nil {
 						left -= a.n
@@ -588,23 +592,22 @@ func childMain() {
 				case "tr":
 					// either submitted as one tracer line or (nil tracer) entry by entry: leave every entry optional
 					for _, e := range op.Entries {
-						if byItem[e.Item] == nil {
+						if byItem[itemKey(e.Item, e.Lvl)] == nil {
 							pend = append(pend, callRec{item: e.Item, lvl: e.Lvl, org: op.Org, kind: 'x'})
 						}
 					}
 				}
 				for _, r := range pend {
-					a := byItem[r.item]
+					a := byItem[itemKey(r.item, r.lvl)]
 					if a == nil {
 						a = &agg{first: r}
-						byItem[r.item] = a
+						byItem[itemKey(r.item, r.lvl)] = a
 						items = append(items, a)
 					}
 					addSeg(a, -1, false)
 				}
 			}
 		}
-		sort.SliceStable(items, func(i, j int) bool { return items[i].first.item < items[j].first.item })
 		for _, a := range items {
 			kind := string(a.first.kind)
 			ent := ""
@@ -615,7 +618,7 @@ func childMain() {
 				}
 				ent = " e" + strings.Join(ids, ",")
 			}
-			fmt.Fprintf(w, "item %d %d %d %d %s %s%s\n", gid, a.first.item, a.first.lvl, a.first.org, kind, strings.Join(a.segs, ","), ent)
+			fmt.Fprintf(w, "item %d %d %d %d %s %s%s\n", gid, itemKey(a.first.item, a.first.lvl), a.first.lvl, a.first.org, kind, strings.Join(a.segs, ","), ent)
 		}
 		for _, p := range paths {
 			fmt.Fprintln(w, p)
